@@ -182,3 +182,12 @@ def refusal(e):
                                         or 'equal number of layout sets' in s):
         return True
     return False
+
+
+def maybe_bystanders(rng, sched, P, prob=0.12, maxtotal=16):
+    """With probability `prob` add one or two ranks to the simulated job that take no part in the
+    computation (see harness.execute): the code under test then runs on a proper sub-communicator."""
+    if rng.random() < prob and P + 1 <= maxtotal:
+        k = 1 if (rng.random() < 0.7 or P + 2 > maxtotal) else 2
+        sched['bystanders'] = sorted(rng.sample(range(P + k), k))
+    return sched
